@@ -2,6 +2,7 @@
 from .ir import load_unit, unit_errors, AnalysisBroken
 from . import rules_guard as RG
 from . import rules_atomic as RA
+from . import rules_slab as RS
 
 
 def need_unit(ctx, name, **kw):
@@ -32,4 +33,24 @@ def C12(ctx):
             "Not decided: mutual exclusion / FIFO hand-over over interleavings.")
 
 
-PROPS = {"C12": C12}
+def C05(ctx):
+    u = need_unit(ctx, "slab")
+    RS.check_C05(ctx, u)
+    if ctx.tier == "thorough":
+        u2 = need_unit(ctx, "slab", extra_flags=("-DFRG_SLAB_TRACK_REGIONS",), tag="track")
+        RS.check_C05(ctx, u2, config=" [FRG_SLAB_TRACK_REGIONS]")
+    return ("Lockset half of C05: guard typestate analysis over every slab_pool member (3 policy instantiations): "
+            "policy map/unmap reached only with an empty lockset (through callees), protected fields accessed only "
+            "with their mutex held, locks only via RAII guards, lock-order graph acyclic. Not decided: linearizability, "
+            "happens-before race freedom as a whole, progress.")
+
+
+def C04(ctx):
+    u = need_unit(ctx, "slab")
+    RS.check_C04(ctx, u)
+    return ("Every failure point of C04 is a call site: each Policy::map result, each _construct_* result in allocate() "
+            "and the inner allocate() of realloc() is tested before use and its null arm returns null with no write to "
+            "pool state and no call. Not decided: that later requests succeed (liveness over a history).")
+
+
+PROPS = {"C12": C12, "C05": C05, "C04": C04}
